@@ -14,28 +14,28 @@ namespace Cron
 open Cal
 
 theorem C01_sound_code (s : Str) (f : Fields) (h : newTrigger Generated.bounds s = some f) (c prev : Int)
-    (hc : -100000 ≤ c ∧ c ≤ 100000) (hp : 0 ≤ prev) (r : Int)
+    (hc : -100000 ≤ c ∧ c ≤ 100000) (hp : -9223372036854775808 ≤ prev) (r : Int)
     (hr : nextFire Generated.limits f (fixedZone c) prev = .ok r) :
     r % 1000000000 = 0 ∧ prev < r ∧ Matches f (Civil.ofSeconds (r / 1000000000 + c)) := by
   rw [Facts.bounds_eq] at h; rw [Facts.limits_eq] at hr
   exact C01_sound f (newTrigger_wellFormed s f h) c prev hc hp r hr
 
 theorem C02_minimal_code (s : Str) (f : Fields) (h : newTrigger Generated.bounds s = some f) (c prev : Int)
-    (hc : -100000 ≤ c ∧ c ≤ 100000) (hp : 0 ≤ prev) (r : Int)
+    (hc : -100000 ≤ c ∧ c ≤ 100000) (hp : -9223372036854775808 ≤ prev) (r : Int)
     (hr : nextFire Generated.limits f (fixedZone c) prev = .ok r) :
     ∀ u : Int, prev < u → u < r → u % 1000000000 = 0 → ¬ Matches f (Civil.ofSeconds (u / 1000000000 + c)) := by
   rw [Facts.bounds_eq] at h; rw [Facts.limits_eq] at hr
   exact C02_minimal f (newTrigger_wellFormed s f h) c prev hc hp r hr
 
 theorem C02_expired_iff_code (s : Str) (f : Fields) (h : newTrigger Generated.bounds s = some f) (c prev : Int)
-    (hc : -100000 ≤ c ∧ c ≤ 100000) (hp : 0 ≤ prev) :
+    (hc : -100000 ≤ c ∧ c ≤ 100000) (hp : -9223372036854775808 ≤ prev) :
     nextFire Generated.limits f (fixedZone c) prev = .expired ↔
       ¬ ∃ u : Int, prev < u ∧ u % 1000000000 = 0 ∧ Matches f (Civil.ofSeconds (u / 1000000000 + c)) := by
   rw [Facts.bounds_eq] at h; rw [Facts.limits_eq]
   exact C02_expired_iff f (newTrigger_wellFormed s f h) c prev hc hp
 
 theorem C06_total_code (s : Str) (f : Fields) (h : newTrigger Generated.bounds s = some f) (c prev : Int)
-    (hc : -100000 ≤ c ∧ c ≤ 100000) (hp : 0 ≤ prev) :
+    (hc : -100000 ≤ c ∧ c ≤ 100000) (hp : -9223372036854775808 ≤ prev) :
     (∃ r, nextFire Generated.limits f (fixedZone c) prev = .ok r ∧ prev < r) ∨
       nextFire Generated.limits f (fixedZone c) prev = .expired := by
   rw [Facts.bounds_eq] at h; rw [Facts.limits_eq]
@@ -45,5 +45,34 @@ theorem C06_total_code (s : Str) (f : Fields) (h : newTrigger Generated.bounds s
 theorem C07_wellFormed_code (s : Str) (f : Fields) (h : newTrigger Generated.bounds s = some f) :
     WellFormed f = true := by
   rw [Facts.bounds_eq] at h; exact newTrigger_wellFormed s f h
+
+/-! ## non-vacuity at a `prev` before 1970 (negative) -/
+
+theorem exNoon_parsed_code : newTrigger Generated.bounds "0 0 12 * * ?".toList = some exNoon := by
+  rw [Facts.bounds_eq]; decide
+
+/-- one day and 1 ns before the epoch → 1969-12-31T12:00:00Z -/
+theorem exNoon_neg_code :
+    nextFire Generated.limits exNoon (fixedZone 0) (-86400000000001) = .ok (-43200000000000) := by
+  rw [Facts.limits_eq]; exact exNoon_neg
+
+example : (-43200000000000 : Int) % 1000000000 = 0 ∧ (-86400000000001 : Int) < -43200000000000 ∧
+    Matches exNoon (Civil.ofSeconds (-43200000000000 / 1000000000 + 0)) :=
+  C01_sound_code _ exNoon exNoon_parsed_code 0 (-86400000000001) (by omega) (by omega) _ exNoon_neg_code
+
+example : ∀ u : Int, -86400000000001 < u → u < -43200000000000 → u % 1000000000 = 0 →
+    ¬ Matches exNoon (Civil.ofSeconds (u / 1000000000 + 0)) :=
+  C02_minimal_code _ exNoon exNoon_parsed_code 0 (-86400000000001) (by omega) (by omega) _ exNoon_neg_code
+
+example : ¬ (nextFire Generated.limits exNoon (fixedZone 0) (-86400000000001) = .expired) := by
+  rw [C02_expired_iff_code _ exNoon exNoon_parsed_code 0 (-86400000000001) (by omega) (by omega)]
+  exact fun h => h ⟨-43200000000000, by omega, by omega,
+    (C01_sound_code _ exNoon exNoon_parsed_code 0 (-86400000000001) (by omega) (by omega) _
+      exNoon_neg_code).2.2⟩
+
+example : (∃ r, nextFire Generated.limits exNoon (fixedZone 0) (-9223372036854775808) = .ok r ∧
+      -9223372036854775808 < r) ∨
+    nextFire Generated.limits exNoon (fixedZone 0) (-9223372036854775808) = .expired :=
+  C06_total_code _ exNoon exNoon_parsed_code 0 (-9223372036854775808) (by omega) (by omega)
 
 end Cron
